@@ -795,9 +795,10 @@ impl OptimizedSearch for u8 {
             }
             let keys_vec = _mm_loadl_epi64(key_bytes.as_ptr() as *const __m128i);
 
-            // Compare all keys at once
+            // Compare all keys at once; only the first `len` lanes hold real keys, the
+            // zero padding behind them must not match a search for key 0
             let cmp = _mm_cmpeq_epi8(search_vec, keys_vec);
-            let mask = _mm_movemask_epi8(cmp) as u32;
+            let mask = (_mm_movemask_epi8(cmp) as u32) & ((1u32 << len.min(8)) - 1);
 
             if mask != 0 {
                 // Found a match, find the first set bit
